@@ -21,7 +21,7 @@ pa == <<47,97>>  pc == <<47,99>>
 NoSec == [present |-> FALSE, alts |-> <<>>]
 
 Desc == [consumes |-> <<J, X>>, produces |-> <<J>>, sec |-> NoSec, defs |-> <<>>,
-         ops |-> <<[method |-> get, path |-> pa, consumes |-> <<>>, produces |-> <<>>, sec |-> NoSec, body |-> FALSE]>>]
+         ops |-> <<[method |-> get, path |-> pa, consumes |-> <<>>, produces |-> <<>>, sec |-> NoSec, body |-> FALSE, nocontent |-> FALSE]>>]
 
 A(act, arg, arg2) == [act |-> act, arg |-> arg, arg2 |-> arg2]
 Actions == {A("RegisterConsumer", X, <<>>), A("RegisterConsumer", J, <<>>), A("RegisterProducer", X, <<>>),
